@@ -86,6 +86,9 @@ type ChunkSpec struct {
 	// caller would use (a reader-type-specific fast path in the library must
 	// not change what a truncated or damaged stream yields).
 	Kind string `json:"kind,omitempty"`
+	// OutPtr: the caller passes ReadFile a pointer to its own struct (records are
+	// decoded in place) instead of a struct value.
+	OutPtr bool `json:"out_ptr,omitempty"`
 }
 
 // openReader builds the reader a ChunkSpec describes over data.
@@ -124,6 +127,7 @@ func genChunks(r *Rng) ChunkSpec {
 	if r.P(2, 5) {
 		c.Kind = r.Pick([]string{"bytes.Buffer", "bytes.Reader", "strings.Reader", "bufio"})
 	}
+	c.OutPtr = r.P(1, 3)
 	return c
 }
 
